@@ -170,6 +170,18 @@ theorem newV_root {sqrt : K → K} (hs : SqrtSpec sqrt) {C : Mat K n} {Crs : Vec
   simp only [newV, ha', Bool.false_eq_true, if_false]
   exact this
 
+/-- the rounding guard never fires when `c ≤ 0` (i.e. never in exact arithmetic) -/
+theorem guardC_of_nonpos {C : Mat K n} {st : St K n} (i j : Fin n) {c : K} (hc : c ≤ 0) :
+    guardC C st i j c = c := by
+  unfold guardC
+  have : ¬ (0 < c) := not_lt.2 hc
+  split
+  · simp [this]
+  · rfl
+
+theorem newVWith_coefC {sqrt : K → K} {C : Mat K n} {Crs : Vec K n} {st : St K n} (i j : Fin n) :
+    newVWith sqrt C Crs st i j (coefC C st i j) = newV sqrt C Crs st i j := rfl
+
 /-- the state after a pair step, entrywise -/
 theorem pairStep_ok {sqrt : K → K} {C : Mat K n} {Crs : Vec K n} (hD : Data C Crs)
     {st : St K n} (h : Inv st) (i j : Fin n) :
@@ -179,7 +191,8 @@ theorem pairStep_ok {sqrt : K → K} {C : Mat K n} {Crs : Vec K n} (hD : Data C 
           (vget (vset st.rs i (vget st.rs i + (newV sqrt C Crs st i j - mget st.X i j))) j
             + (newV sqrt C Crs st i j - mget st.X j i)) } := by
   unfold pairStep
-  simp only [coefC_nonpos hD h i j, if_true]
+  simp only [guardC_of_nonpos i j (coefC_nonpos hD h i j), coefC_nonpos hD h i j, if_true,
+    newVWith_coefC]
 
 theorem pairStep_inv {sqrt : K → K} (hs : SqrtSpec sqrt) {C : Mat K n} {Crs : Vec K n}
     (hD : Data C Crs) {st st' : St K n} (h : Inv st) {i j : Fin n} (hij : i ≠ j)
